@@ -31,7 +31,7 @@ REGIMES = ["BOOL", "MT", "FREE", "QQ", "FLOAT", "FLOAT", "REAL", "MP"]
 
 
 def examples(tier):
-    return 400 if tier == "quick" else 8000
+    return 960 if tier == "quick" else 12000
 
 
 @st.composite
